@@ -103,7 +103,9 @@ def classify(prop, violations):
     known = [k for k in load_known() if k.get("property") == prop and k.get("status") == "known"]
     new, old = [], []
     for v in violations:
-        hit = next((k for k in known if k.get("key") == v["key"]), None)
+        # the same input class in the build without debug assertions ("-rel") is the same finding
+        base_key = v["key"][:-4] if v["key"].endswith("-rel") else v["key"]
+        hit = next((k for k in known if k.get("key") in (v["key"], base_key)), None)
         (old if hit else new).append((v, hit))
     return new, old
 
